@@ -31,6 +31,9 @@ pub const LITERALS: &[&str] = &[
     "077", "08", "1l", "1L", "1ul", "1UL", "1uu", "0.0", "1.0", "1.", ".5", "1.0f", "1.0h", "1.0L", "1e10", "1e999", "1e-999", "1e+",
     "1e", "1.e5f", "3.402823466e+38f", "1.175494351e-38f", "1.7976931348623157e308", "4.9e-324", "0.1f", "1.#INF", "1.0lf",
     "1f", "1h", "0b101", "1'000", "\"str\"", "\"unterminated", "'c'", "true", "false",
+    "4294967296u", "0xFFFFFFFFFu", "040000000000u", "9223372036854775808l", "0xffffffffffffffffl", "01777777777777777777777l", "0777777777777777777777777",
+    "0x123456789abcdefABCDEF", "0xabcdefu", "0XFF", "01234567", "0129", "12lu", "12LU", "0x1Ful", "017uL", "0.0#INF", "1e5#INF", "1.#INFx", "1.5#IN", "1.#INFf", "2.0#INFh",
+    "0.5x", "1.0fx", "1.xyz", "\"a\\\"b\"", "\"é\"", "é", "1é",
 ];
 pub const IDENTS: &[&str] = &[
     "a", "b", "c", "x", "y", "i", "n", "f", "g", "main", "CSMAIN", "PSMAIN", "VSMAIN", "S", "T", "s", "v", "m", "g_tex", "g_buf", "g_cb",
@@ -51,6 +54,8 @@ pub const DIRECTIVES: &[&str] = &[
     "#include", "#include M", "#pragma once", "#pragma warning(disable: 1)", "#pragma foo", "#pragma", "#error x", "#line 3",
     "#", "# define M 2", "#unknown", "M", "M(1)", "M(1, 2)", "M(", "M(M(M(1)))", "A", "B(1)", "x ## y", "## x", "x ##",
     "RSSL_TARGET_HLSL ## 1", "x ## RSSL_TARGET_MSL", "__HLSL_VERSION ## x", "DEF ## DEF", "a DEF b",
+    "#include <abc", "#include <a", "#include \"abc", "#include <é>", "#include <a\\\nb>", "// c \\\n still comment", "/* c \\\n */", "#if false", "#if true && !false", "#define P(x) x ## \"", "P(a)",
+    "#define Q(x) \" ## x", "Q(b)", "#define R a ## /* c */ b", "R", "#if 1 // c \\\n 2",
 ];
 
 pub fn generate(kind: &str, seed: u64) -> Option<Vec<u8>> {
@@ -63,6 +68,17 @@ pub fn generate(kind: &str, seed: u64) -> Option<Vec<u8>> {
         "feat" => gen_features(&mut rng).into_bytes(),
         "gmut" => {
             let src = gen_grammar(&mut rng);
+            mutate_tokens(&src, &mut rng).into_bytes()
+        }
+        "cx" => gen_cx(&mut rng).text.into_bytes(),
+        "syn" => gen_syn(&mut rng).text.into_bytes(),
+        // the template of the seed-th category alone (every category is emitted at least once per run)
+        "synone" => {
+            let (c, a) = *syn_variants().get(seed as usize)?;
+            syn_single(c, a)?.into_bytes()
+        }
+        "synmut" => {
+            let src = gen_syn(&mut rng).text;
             mutate_tokens(&src, &mut rng).into_bytes()
         }
         "prog" => {
@@ -166,10 +182,11 @@ pub fn gen_tokens(rng: &mut Rng) -> String {
     while let Some(c) = open.pop() {
         s.push_str(c);
     }
-    s.truncate(4096);
-    while !s.is_char_boundary(s.len()) {
-        s.pop();
+    let mut cut = s.len().min(4096);
+    while !s.is_char_boundary(cut) {
+        cut -= 1;
     }
+    s.truncate(cut);
     s
 }
 
@@ -384,6 +401,154 @@ pub fn cond_sequences(rng: &mut Rng, exhaustive: usize, random: usize) -> Vec<St
     out
 }
 
+// ------------------------------------------------------------------------------------------ `defined` scan scenarios
+
+/// `<placement>;<definition>;..;<condition>`: a few macro definitions (in a header, in the entry file before the `#if`,
+/// or as API defines) and one `#if` condition that uses them together with `defined`
+pub fn gen_defscan(rng: &mut Rng) -> String {
+    const PLAIN: &[&str] = &["P", "Q", "R", "A", "F"];
+    let placement = match rng.below(20) {
+        0..=11 => "h",
+        12..=16 => "m",
+        _ => "a",
+    };
+    let nd = rng.below(5) as usize;
+    let mut macros: Vec<(String, Option<usize>)> = Vec::new();
+    let mut parts: Vec<String> = vec![placement.to_string()];
+    fn join(rng: &mut Rng, toks: &[String]) -> String {
+        let mut s = String::new();
+        for (i, t) in toks.iter().enumerate() {
+            if i > 0 {
+                let prev_word = toks[i - 1].chars().last().is_some_and(|c| c.is_alphanumeric() || c == '_');
+                let this_word = t.chars().next().is_some_and(|c| c.is_alphanumeric() || c == '_');
+                if (prev_word && this_word) || rng.chance(1, 2) {
+                    s.push(' ');
+                }
+            }
+            s.push_str(t);
+        }
+        s
+    }
+    for _ in 0..nd {
+        let (name, params): (&str, Vec<&str>) = match rng.below(8) {
+            0..=2 => (*rng.pick(&["A", "B", "C"]), vec![]),
+            3..=5 => (*rng.pick(&["F", "G", "H"]), vec!["x"]),
+            6 => (*rng.pick(&["F", "G", "H"]), vec!["x", "y"]),
+            _ => (*rng.pick(&["F", "H", "A"]), vec![]),
+        };
+        let is_fn = !params.is_empty() || (name != "A" && name != "B" && name != "C") || rng.chance(1, 6);
+        let mut body: Vec<String> = Vec::new();
+        let n = rng.below(5);
+        for _ in 0..n {
+            let p = if params.is_empty() { rng.pick(PLAIN).to_string() } else { rng.pick(&params).to_string() };
+            match rng.below(16) {
+                0..=2 => body.extend(["defined".to_string(), p]),
+                3 => body.extend(["(".to_string(), "defined".to_string(), p, ")".to_string()]),
+                4..=5 => body.extend(["defined".to_string(), "(".to_string(), p, ")".to_string()]),
+                6 => body.push(p),
+                7 => {
+                    if let Some((m, a)) = macros.get(rng.below(macros.len().max(1) as u64) as usize).cloned() {
+                        body.push(m);
+                        if let Some(k) = a {
+                            body.push("(".into());
+                            for j in 0..k {
+                                if j > 0 {
+                                    body.push(",".into());
+                                }
+                                body.push(p.clone());
+                            }
+                            body.push(")".into());
+                        }
+                    } else {
+                        body.push(name.to_string());
+                    }
+                }
+                8 => body.push(rng.pick(&["1", "0", "7"]).to_string()),
+                9 => body.push(rng.pick(&["&&", "||", "+", "!", "=="]).to_string()),
+                10 => body.push(rng.pick(&["(", ")", ","]).to_string()),
+                11 => body.push("defined".to_string()),
+                12 => body.push(if rng.chance(1, 2) { name.to_string() } else { rng.pick(&["F", "G", "H"]).to_string() }),
+                13 if rng.chance(1, 3) => body.push("##".to_string()),
+                _ => body.push(rng.pick(PLAIN).to_string()),
+            }
+        }
+        let head = if is_fn { format!("{}({})", name, params.join(if rng.chance(1, 2) { ", " } else { "," })) } else { name.to_string() };
+        let b = join(rng, &body);
+        parts.push(if b.is_empty() { head } else { format!("{} {}", head, b) });
+        macros.retain(|m| m.0 != name);
+        macros.push((name.to_string(), if is_fn { Some(params.len()) } else { None }));
+    }
+    // the condition
+    let mut cond: Vec<String> = Vec::new();
+    let na = 1 + rng.below(4);
+    for k in 0..na {
+        if k > 0 {
+            cond.push(rng.pick(&["&&", "||", "==", "+", "<"]).to_string());
+        }
+        let p = rng.pick(PLAIN).to_string();
+        let call = |rng: &mut Rng, macros: &Vec<(String, Option<usize>)>, arg: &str| -> Vec<String> {
+            let fns: Vec<&(String, Option<usize>)> = macros.iter().filter(|m| m.1.is_some()).collect();
+            let (m, a) = if fns.is_empty() || rng.chance(1, 6) { ("F".to_string(), 1) } else { let f = fns[rng.below(fns.len() as u64) as usize]; (f.0.clone(), f.1.unwrap()) };
+            let mut v = vec![m, "(".to_string()];
+            for j in 0..a {
+                if j > 0 {
+                    v.push(",".into());
+                }
+                v.push(arg.to_string());
+            }
+            v.push(")".into());
+            match rng.below(12) {
+                0 => {
+                    v.pop();
+                }
+                1 => v.truncate(1),
+                2 => v.insert(v.len() - 1, ",".into()),
+                _ => {}
+            }
+            v
+        };
+        match rng.below(16) {
+            0..=1 => cond.extend(["defined".to_string(), p]),
+            2..=3 => cond.extend(["defined".to_string(), "(".to_string(), p, ")".to_string()]),
+            4..=8 => {
+                let c = call(rng, &macros, &p);
+                cond.extend(c);
+            }
+            9 => {
+                let arg = format!("defined {}", p);
+                let c = call(rng, &macros, &arg);
+                cond.extend(c);
+            }
+            10 => {
+                let inner = call(rng, &macros, &p).join("");
+                let c = call(rng, &macros, &inner);
+                cond.extend(c);
+            }
+            11 => {
+                let objs: Vec<&(String, Option<usize>)> = macros.iter().filter(|m| m.1.is_none()).collect();
+                let o = if objs.is_empty() { "A".to_string() } else { objs[rng.below(objs.len() as u64) as usize].0.clone() };
+                // an object-like macro in operator position: what it expands to meets the operand afterwards
+                match rng.below(4) {
+                    0 => cond.push(o),
+                    1 => cond.extend([o, p]),
+                    2 => cond.extend([o, "(".to_string(), p, ")".to_string()]),
+                    _ => cond.extend([o, "(".to_string(), p, ",".to_string(), "Q".to_string(), ")".to_string()]),
+                }
+            }
+            12 => cond.extend(["!".to_string(), "defined".to_string(), p]),
+            13 => cond.push(rng.pick(&["1", "0"]).to_string()),
+            14 => {
+                cond.push("defined".to_string());
+                let c = call(rng, &macros, &p);
+                cond.extend(c);
+            }
+            _ => cond.extend(["(".to_string(), "defined".to_string(), p, ")".to_string()]),
+        }
+    }
+    parts.push(join(rng, &cond));
+    parts.join(";")
+}
+
 // ------------------------------------------------------------------------------------------ plan
 
 fn pick_mode(rng: &mut Rng, names: &[String]) -> Mode {
@@ -414,9 +579,47 @@ const API_DEFINES: &[(&str, &str)] = &[("DEF", "1"), ("DEF", "a b"), ("DEF", "")
 pub fn plan(rng: &mut Rng, scale: u64, thorough: bool, repo: &str, hist: &mut Hist) -> Vec<Req> {
     let mut specs: Vec<String> = Vec::new();
     let per = |n: u64| n * scale;
-    for (kind, n) in [("bytes", 100u64), ("toks", 180), ("rep", 140), ("gram", 200), ("gmut", 120), ("feat", 260), ("prog", 40), ("pmut", 50)] {
+    for (kind, n) in [("bytes", 100u64), ("toks", 170), ("rep", 130), ("gram", 180), ("gmut", 110), ("feat", 220), ("prog", 40), ("pmut", 50)] {
         for _ in 0..per(n) {
             specs.push(format!("{}:{}", kind, rng.next() >> 20));
+        }
+    }
+    // one template per syntactic category of the front end (see c08_syn.rs) and token-level mutations of such programs
+    for c in syn_categories() {
+        hist.0.entry(format!("cat/syn/{}", c)).or_insert(0);
+    }
+    for (k, (c, _)) in syn_variants().iter().enumerate() {
+        hist.add(&format!("cat/syn/{}", c));
+        specs.push(format!("synone:{}", k));
+    }
+    for (kind, n) in [("syn", 180u64), ("synmut", 60)] {
+        for _ in 0..per(n) {
+            let seed = rng.next() >> 20;
+            for c in &gen_syn(&mut Rng::new(seed)).cats {
+                hist.add(&format!("cat/syn/{}", c));
+            }
+            specs.push(format!("{}:{}", kind, seed));
+        }
+    }
+    // typed constant expressions in every constant context (typer/src/evaluator.rs)
+    for _ in 0..per(200) {
+        let seed = rng.next() >> 20;
+        for c in &gen_cx(&mut Rng::new(seed)).cats {
+            hist.add(&format!("cat/cx/{}", c));
+        }
+        specs.push(format!("cx:{}", seed));
+    }
+    // preprocessor-grammar programs (several files + their own API defines) and their token-level mutations
+    for (kind, n) in [("pp", 220u64), ("ppmut", 100)] {
+        for _ in 0..per(n) {
+            let seed = rng.next() >> 20;
+            let p = if kind == "pp" { gen_pp(&mut Rng::new(seed)) } else { gen_pp_mutated(&mut Rng::new(seed)) };
+            for c in &p.cats {
+                hist.add(&format!("cat/pp/{}", c));
+            }
+            hist.add(&format!("pp-files={}", p.files.len()));
+            hist.add(&format!("pp-defines={}", p.defines.len().min(3)));
+            specs.push(format!("{}:{}", kind, seed));
         }
     }
     let corpus = repo_corpus(repo);
@@ -434,6 +637,8 @@ pub fn plan(rng: &mut Rng, scale: u64, thorough: bool, repo: &str, hist: &mut Hi
     for spec in specs {
         let names = super::materialise(&spec).map(|m| pipeline_names(&m.bytes)).unwrap_or_default();
         let heavy = spec.starts_with("repo:") || spec.starts_with("rmut:");
+        // the preprocessor does not depend on the target beyond RSSL_TARGET_*: one HLSL flavour + Metal in quick
+        let two_targets = heavy || spec.starts_with("cx:") || spec.starts_with("pp:") || spec.starts_with("ppmut:") || spec.starts_with("synone:");
         let defs: Vec<(String, String)> = if rng.chance(1, 5) {
             let (n, v) = *rng.pick(API_DEFINES);
             vec![(n.to_string(), v.to_string())]
@@ -451,7 +656,7 @@ pub fn plan(rng: &mut Rng, scale: u64, thorough: bool, repo: &str, hist: &mut Hi
             }
             continue;
         }
-        let targets: Vec<Tgt> = if heavy && !thorough { vec![*rng.pick(&[Tgt::Dx, Tgt::Vk, Tgt::VkBa]), Tgt::Msl] } else { ALL_TARGETS.to_vec() };
+        let targets: Vec<Tgt> = if two_targets && !thorough { vec![*rng.pick(&[Tgt::Dx, Tgt::Vk, Tgt::VkBa]), Tgt::Msl] } else { ALL_TARGETS.to_vec() };
         for tgt in targets {
             let mode = if heavy && names.is_empty() { if rng.chance(3, 4) { Mode::NoPipeline } else { pick_mode(rng, &names) } } else { pick_mode(rng, &names) };
             reqs.push(Req { tgt, mode, layout: rng.chance(1, 2), defs: defs.clone(), input: spec.clone() });
@@ -467,3 +672,6 @@ fn pick_mode_named(rng: &mut Rng, names: &[String]) -> Mode {
 // ------------------------------------------------------------------------------------------ grammar
 
 include!("c08_grammar.rs");
+include!("c08_pp.rs");
+include!("c08_syn.rs");
+include!("c08_cx.rs");
